@@ -1,5 +1,6 @@
 // govc:pkg window
 // govc:bound session windows over 1..4 (thorough: 1..6) grouping keys x rows per key 1..3 (equal and unequal counts) x 3 interleavings; every open session flushed at once by Trigger(); each delivered batch compared with the rows fed for its key
+// govc:also C02 C10
 // Bounded stand-in (NOT a proof) for what the value model of slices cannot see: batches delivered by one flush must not share
 // storage. Each open session is delivered once, holding exactly its own key's rows in arrival order, whatever the other
 // sessions flushed in the same call hold.
